@@ -151,6 +151,20 @@ def shaped_games():
     for root, first in ((P2, [("go", 1)]), (P1, [("go", 1)]), (PR, [(1, 1)]), (P2, [("go", 1), ("also", 1)]), (P1, [("go", 1), ("stop", 5)])):
         out.append(mk_game([root, P2, PR, PR, PR, PR], [first, [("x", 2), ("y", 3)], [(0.5, 4), (0.5, 5)], [(0.2, 4), (0.8, 5)], [(1, 4)], [(1, 5)]],
                            [1, 1, 1, 10, 0, 0], [4]))
+    # dead branches that carry (almost) no probability: the surviving mass is 1.0 in floating point although a branch was removed
+    for ns in ([(1e-17, 1), (0.5, 4), (0.5, 5)], [(0.5, 4), (1e-17, 1), (0.5, 5)], [(0.5, 4), (0.5, 5), (1e-17, 1)], [(0.5, 4), (0, 1), (0.5, 5)], [(0.0, 1), (1, 5)]):
+        out.append(mk_game([PR, PR, PR, PR, PR, PR], [ns, [(1, 1)], [(1, 2)], [(1, 3)], [(1, 4)], [(0.5, 4), (0.5, 1)]], [1, 0, 0, 0, 0, 2], [4]))
+    # a distribution whose float sum over sure successors exceeds 1 by one ulp (0.2 + 0.4 + 0.3 + 0.1), below Player 1 / chance / Player 2
+    for root, first in ((P1, [("a", 1), ("b", 6)]), (PR, [(0.5, 1), (0.5, 6)]), (P2, [("a", 1), ("b", 1)])):
+        out.append(mk_game([root, PR, PR, PR, PR, PR, PR, PR],
+                           [first, [(0.2, 2), (0.4, 3), (0.3, 4), (0.1, 5)], [(1, 7)], [(1, 7)], [(1, 7)], [(1, 7)], [(1, 6)], [(1, 7)]], [0, 1, 2, 4, 8, 16, 0, 0], [7]))
+    # a Player 1 state with two reachability-TIED actions, one of them into a Player 2 state whose reachability strategy is not its reward
+    # strategy: the two diagnostics and the main outputs rank the actions differently (in both listing orders)
+    for s0 in ([("a", 1), ("b", 2)], [("b", 2), ("a", 1)]):
+        out.append(mk_game([P1, P2, PR, PR, PR, PR, PR], [s0, [("x", 3), ("y", 4)], [(0.5, 5), (0.5, 6)], [(1, 5)], [(0.5, 5), (0.5, 6)], [(1, 5)], [(1, 6)]],
+                           [0, 0, 3, 1, 5, 0, 0], [5]))
+        out.append(mk_game([P1, P2, PR, PR, PR, PR, PR], [s0, [("x", 3), ("y", 4)], [(0.5, 6), (0.5, 5)], [(0.5, 6), (0.5, 5)], [(0.9, 6), (0.1, 5)], [(1, 5)], [(1, 6)]],
+                           [0, 0, 0, 10, 1, 0, 0], [6]))
     # a long shot: positive but tiny reachability values next to exact zeros
     for eps in (1e-7, 1e-9):
         out.append(mk_game([PR, PR, PR, PR, PR], [[(0.25, 1), (0.5, 2), (0.25, 4)], [(eps, 4), (1 - eps, 3)], [(0.5, 4), (0.5, 3)], [(1, 3)], [(1, 4)]], [1, 1, 1, 0, 0], [4]))
